@@ -105,6 +105,10 @@ static int validate_checksums(zckCtx *zck, zck_log_type bad_checksums) {
                         return 0;
                 }
             }
+            /* Nothing more can be read: don't keep asking for the rest of a
+             * chunk whose declared size may be astronomically large */
+            if(truncated)
+                break;
             rlen += rsize;
         }
         int valid_chunk = validate_chunk(idx, bad_checksums);
